@@ -13,11 +13,11 @@
                               modelled text/scanner;
    slice_string, set_string, map_ss_string, mss_string = the flag helpers' String().
    isp is unicode.IsPrint: every theorem holds for every table that agrees with
-   Go's on ASCII.  str_valid s: every rune of s is a Unicode scalar value (true
-   of every rune a Go string yields). *)
+   Go's on ASCII.  str_valid s: every rune of s is a Unicode scalar value or a raw
+   (invalid UTF-8) byte of the front end Text/Utf8.v - true of every Go string. *)
 From Coq Require Import List NArith ZArith Permutation.
 From Dials Require Import Base.Outcome Base.Runes Text.ParseInt Text.Quote Text.Split
-  Text.FlagHelpers Text.ParseString Text.ParseFloat Text.IntGrammar Text.ParseDuration Text.ParseIntProofs Text.IntGrammarProofs Text.DurationProofs Text.QuoteProofs Text.SplitProofs.
+  Text.FlagHelpers Text.ParseString Text.ParseFloat Text.IntGrammar Text.ParseDuration Text.ParseIntProofs Text.IntGrammarProofs Text.DurationProofs Text.Utf8 Text.Utf8Proofs Text.QuoteProofs Text.SplitProofs.
 Import ListNotations.
 Open Scope N_scope.
 
@@ -123,7 +123,17 @@ Theorem digit_separators_do_not_count : forall g, wf_lit g = true ->
   wf_lit (strip_lit g) = true /\ lit_val (strip_lit g) = lit_val g.
 Proof. exact strip_lit_ok. Qed.
 
-(* ---- strings ---- *)
+(* ---- strings.  A Go string is a byte list; the models see it through the UTF-8 front
+   end Text/Utf8.v (utf8.DecodeRune: an invalid byte is consumed alone and shown as a raw
+   pseudo rune).  str_valid s - every rune is a Unicode scalar value or a raw byte - is the
+   only hypothesis of the string theorems below, and it holds for whatever a byte string
+   decodes to, so they cover every Go string, valid UTF-8 or not. ---- *)
+Theorem every_go_string_is_valid : forall bs, Forall (fun b => b < 256) bs -> str_valid (utf8_decode bs).
+Proof. exact decode_valid. Qed.
+
+Theorem utf8_decode_encode : forall s, Forall (fun r => valid_rune r = true) s -> utf8_decode (utf8_encode s) = s.
+Proof. exact decode_encode. Qed.
+
 Theorem quote_unquote : forall isp, (forall r, r < 128 -> isp r = ascii_print r) ->
   forall s, str_valid s -> unquote (quote isp s) = Ok s.
 Proof. exact quote_unquote_l. Qed.
@@ -198,6 +208,8 @@ Print Assumptions uint_accepts_go_forms.
 Print Assumptions int_accepts_only_go_forms.
 Print Assumptions uint_accepts_only_go_forms.
 Print Assumptions digit_separators_do_not_count.
+Print Assumptions every_go_string_is_valid.
+Print Assumptions utf8_decode_encode.
 Print Assumptions quote_unquote.
 Print Assumptions slice_roundtrip.
 Print Assumptions set_roundtrip.
